@@ -159,6 +159,7 @@ def report(prop, tier, seed, outs, wall, level, explanation, extra_assumptions, 
                    'hint_depth': '<=2 quick (+ curated), <=5 thorough', 'draw': '0 <= r < 2**32'},
         'functions_encoded': evidence.source_hashes(funcs or FUNCS_ENCODED['common']),
         'known_findings_matched': len(known_hits),
+        'translator_validations_against_real_function': sum(getattr(o, 'validated', 0) for o in outs),
     }
     if explanation:
         cov['explanation'] = explanation
